@@ -37,7 +37,13 @@ var (
 	mac20 = "aa:aa:aa:aa:aa:aa:aa:aa:aa:aa:aa:aa:aa:aa:aa:aa:aa:aa:aa:03"
 )
 
+// poolOverride, when set, replaces the pool (used by the zoned-address pass).
+var poolOverride []string
+
 func pool(quick bool) []string {
+	if poolOverride != nil {
+		return poolOverride
+	}
 	if quick {
 		return []string{"10.0.0.1", "10.0.0.2", "10.0.0.0/16", "10.0.0.0/30", "10.0.1.0/24", "10.0.1.5/24", mac6, "cid1"}
 	}
@@ -299,7 +305,7 @@ func dumpKey(s *client.Storage) (string, []*client.Persistent, []client.VerifInd
 	return sb.String(), cs, es
 }
 
-var probeAddrs = []string{"10.0.0.1", "10.0.0.2", "10.0.0.9", "10.0.1.1", "10.0.1.5", "10.0.2.1", "10.1.0.1", "2001:db8::1", "2001:db8::2", "2001:db8::1:0:0:1", "2001:db9::1"}
+var probeAddrs = []string{"fe80::1%eth0", "fe80::1", "fe80::2%eth0", "fe80:1::1%eth1", "10.0.0.1", "10.0.0.2", "10.0.0.9", "10.0.1.1", "10.0.1.5", "10.0.2.1", "10.1.0.1", "2001:db8::1", "2001:db8::2", "2001:db8::1:0:0:1", "2001:db9::1"}
 var probeCIDs = []string{"", "cid1", "cid2", "cidx"}
 
 func names(set map[string]bool) string {
@@ -532,7 +538,19 @@ func jsonStr(v any) string {
 	return string(b)
 }
 
+// zonedPass: link-local IPv6 identifiers with a zone (kept by exact
+// identifiers, ignored by containing networks).
+func zonedPass(c *lib.Ctx) {
+	poolOverride = []string{"fe80::1%eth0", "fe80::1", "fe80::/16", "fe80::/64"}
+	defer func() { poolOverride = nil }()
+	ops := alphabet(true)
+	c.Note("alphabet_zoned_pass", fmt.Sprintf("%d operations over identifier pool %v, depth 3", len(ops), poolOverride))
+	b := &lib.BFS[op]{C: c, Ops: ops, Exec: exec, MaxDepth: 3, Workers: 16, Confirm: true}
+	b.Run()
+}
+
 func run(c *lib.Ctx) {
+	zonedPass(c)
 	if c.Quick() {
 		ops := alphabet(true)
 		c.Note("alphabet", fmt.Sprintf("%d operations over identifier pool %v", len(ops), pool(true)))
